@@ -10,8 +10,8 @@ Representation decisions (documented for reuse):
 * `str`   : list of Unicode code points (`List Char`). Strings built by the lexer go
             through `WriteRune`, so they are always valid UTF-8; a byte view, where a
             consumer needs one, is `String.toUTF8 (String.ofList cs)`. `raw` = back-tick literal.
-* `char`  : the rune value as a `Nat` (the parser takes the FIRST BYTE of the decoded
-            character, so `'é'` is 195; see `Parser`).
+* `char`  : the rune value as a `Nat` (before repo fix C12-01 the parser took the FIRST BYTE
+            of the decoded character, so `'é'` was 195; see `Model/LegacyReadPrint`).
 * `sym`   : name as code points, plus the two flags the parser sets (`colonTail`, `isDot`);
             symbol numbers and sigil flags are functions of the name and are not kept.
 * `hash`  : the parser only ever builds the EMPTY anonymous hash `{}`.
